@@ -249,6 +249,8 @@ def e_case(case, res):
         ma = res["vals"]["ma"][qi]
         if sid is None or ma[0] == "err":
             continue
+        if q["cell"] in case.get("probes", ()):
+            continue            # probe of literal-subclass references: strings / enum members are not Gallina values, (P) only
         v = coq_canon(ma)
         if v is None or arity.get((sid, q["cell"])) != len(q["args"]):
             continue            # value outside the evaluator's vocabulary / default arguments used
@@ -283,7 +285,10 @@ def run(tier, seed, rng):
     out.rule = ("random models of the documented export subset (static/nested/derived/parametrised spaces; literal, pickled, space- and "
                 "cells-valued references; def and lambda cells with nested lambdas, nested (recursive) defs, list comprehensions, generator "
                 "expressions, local assignments, keyword calls, local/parameter names shadowing globals and built-ins, references and cells "
-                "shadowing built-ins; cached and uncached cells); every cells queried at 1-2 argument tuples per access path, twice (cached "
+                "shadowing built-ins; cached and uncached cells; space- and model-level references whose values are instances of "
+                "SUBCLASSES of int/float/str (IntEnum/StrEnum members of http and signal, float/str/int subclasses of harness/c15lits.py), "
+                "read by probe cells through type(r).__name__, .name, .value, methods of the subclass and arithmetic, also via inheritance, "
+                "child/referenced spaces and ItemSpaces); every cells queried at 1-2 argument tuples per access path, twice (cached "
                 "flags flipped). distinct_nontrivial = distinct (formula, module-level names) pairs given to FormulaTransformer whose formula "
                 "has an inner binder (lambda/comprehension/assignment/def) AND in which at least one name was rewritten")
     regs, finds = load_corpus()
@@ -399,6 +404,15 @@ def run(tier, seed, rng):
         if not failing:
             out.notes.append("witness %s no longer fails" % d["_file"])
 
+    probe_q = probe_cmp = 0
+    for c, r in zip(cases, res):
+        if r.get("build_err") or not c.get("probes"):
+            continue
+        for qi, q in enumerate(c["queries"]):
+            if q["cell"] in c["probes"]:
+                probe_q += 1
+                if "ma" in r["vals"] and r["vals"]["ma"][qi][0] != "err":
+                    probe_cmp += 1
     kinds = {}
     for mm in metas:
         def walk(e):
@@ -417,10 +431,24 @@ def run(tier, seed, rng):
                                    "derived": sum(1 for c in cases for s in c["spaces"] if s["bases"]),
                                    "parametrised": sum(1 for c in cases for s in c["spaces"] if s.get("params") is not None),
                                    "nested": sum(1 for c in cases for s in c["spaces"] if s["parent"] is not None)},
+                        "literal_subclass_refs": {
+                            "models_with_such_refs": sum(1 for c in cases if c.get("lit_refs")),
+                            "refs": sum(c.get("lit_refs", 0) for c in cases),
+                            "model_level": sum(1 for c in cases for _, v in c.get("mrefs", []) if v[0] == "lit"),
+                            "in_derived_spaces": sum(1 for c in cases for s in c["spaces"] if s["bases"] for rf in s["refs"] if rf[1][0] == "lit"),
+                            "in_parametrised_trees": sum(1 for c in cases for s in c["spaces"] if s.get("params") is not None
+                                                         for rf in s["refs"] if rf[1][0] == "lit"),
+                            "probe_cells": sum(1 for c in cases for s in c["spaces"] for ce in s["cells"] if ce.get("probe")),
+                            "probe_queries": probe_q, "probe_queries_compared_4way": probe_cmp},
                         "uncached_cells": sum(1 for c in cases for s in c["spaces"] for ce in s["cells"] if not ce["cached"]),
                         "cells": sum(len(s["cells"]) for c in cases for s in c["spaces"]),
                         "syntax_nodes_in_tie": kinds,
                         "filtered_by_known_defect_trigger": stats["filtered"]}
+    out.notes.append("references whose values are instances of subclasses of int/float/str and the probe cells (pr1..pr3) that read them are "
+                     "checked by (P) (four-way value comparison with exact types: canon tags them ['sub', module.qualname, base value]) and by "
+                     "the module-level-names check of the dumped namespaces only: the Gallina evaluator has no strings / enum members / "
+                     "attribute access on such values, so these references are opaque in the (E) tables and probe queries are left out of (E); "
+                     "probe formulas are inside the grammar, so (T) covers their transformation")
     out.notes.append("generator rejects formulas that trigger a recorded defect (decidable predicates in c15gen.triggers): %s" % json.dumps(stats["filtered"]))
     for c in cases[:40]:
         for s in c["spaces"]:
